@@ -5,6 +5,7 @@ import (
 	"fmt"
 	"io"
 	"log"
+	"math"
 	"runtime"
 	"strconv"
 	"strings"
@@ -229,9 +230,10 @@ func (p *parser) parseComparison() *proto.Query_Expression {
 
 	switch p.peek().typ {
 	case itemPlaceholder:
-		placeholder = decodePlaceholder(p.next().val)
+		placeholderText := p.next().val
+		placeholder = decodePlaceholder(placeholderText)
 		if placeholder < 1 {
-			p.errorf("invalid placeholder %d; must be 1 or greater", placeholder)
+			p.errorf("invalid placeholder %s; must be a number between 1 and %d", placeholderText, math.MaxInt32)
 		}
 	case itemValue:
 		value = decodeString(p.next().val)
@@ -272,8 +274,13 @@ func decodePlaceholder(s string) int {
 		return 0
 	}
 
-	i, _ := strconv.Atoi(s[1:])
-	return i
+	// placeholders are stored as int32; anything that doesn't fit is invalid.
+	i, err := strconv.ParseInt(s[1:], 10, 32)
+	if err != nil {
+		return 0
+	}
+
+	return int(i)
 }
 
 func (p *parser) parseFieldList() []string {
